@@ -322,7 +322,7 @@ func SolveAll(cfg *SolverCfg, obls []*Obligation) {
 		}
 		cfg.Dir = d
 		if !cfg.KeepQueries {
-			defer os.RemoveAll(d)
+			defer func() { os.RemoveAll(d); cfg.Dir = "" }()
 		}
 	}
 	// larger goals first is not known; keep order but distribute
